@@ -238,7 +238,7 @@ def rule_enum_surface(ctx):
             docs = [o.result for o in outs if isinstance(o.result, docmodel.Doc)]
             if len(docs) != 1 or len(outs) != 1:
                 raise AnalysisError("R-ENUM/surface: the printer of %s::%s could not be folded" % (ein.split("::")[-1], vin))
-            parts = [tk for tk in docs[0].toks if tk[0] not in ("space", "line", "hardline")]
+            parts = [tk for tk in docs[0].toks if tk[0] not in ("space", "line", "hardline", "softline")]
             tok = parts[0][1] if len(parts) == 1 and parts[0][0] in ("text", "kw", "ctor", "dtor", "typ") and isinstance(parts[0][1], str) else None
             if tok is None and parts:
                 raise AnalysisError("R-ENUM/surface: the printer of %s::%s prints %r, which is not one literal token" % (ein.split("::")[-1], vin, parts[:3]))
